@@ -375,10 +375,19 @@ func RunShard(prop, tier string, seed uint64, shard, shards int, plan []PlanItem
 						seen[h] = struct{}{}
 						ss.NonTrivial++
 						st.Hashes[item.Scen] = append(st.Hashes[item.Scen], h)
-						if nsamples < 2 && shard == 0 {
-							if b, err := json.Marshal(c); err == nil && len(b) < 6000 {
+						// keep the two smallest non-trivial cases of this shard as samples
+						if b, err := json.Marshal(c); err == nil {
+							if nsamples < 2 {
 								st.Samples = append(st.Samples, b)
 								nsamples++
+							} else {
+								big := 0
+								if len(st.Samples[1]) > len(st.Samples[0]) {
+									big = 1
+								}
+								if len(b) < len(st.Samples[big]) {
+									st.Samples[big] = b
+								}
 							}
 						}
 					}
